@@ -940,6 +940,10 @@ def vacuous_head(head):
 # --------------------------------------------------------------------------
 # template expansion
 # --------------------------------------------------------------------------
+# contracts whose text needs the signature / interpreter shims: never pulled into other units by //@stubrest
+STUBREST_SKIP = {'Transaction::_verify', 'TxIn::get_finalised_script_impl'}
+
+
 def expand(unit, db=None, outdir=None, variant=None):
     """Generate work/<unit>.rs.  Returns (path, info)."""
     db = db if db is not None else load_contracts()
@@ -1007,7 +1011,7 @@ def expand(unit, db=None, outdir=None, variant=None):
         chunk = []
         for key in sorted(db):
             c = db[key]
-            if c.owner == owner and key not in emitted:
+            if c.owner == owner and key not in emitted and key not in STUBREST_SKIP:
                 try:
                     chunk.append(emit_fn(c, False, info))
                     emitted.add(key)
